@@ -15,7 +15,7 @@ from vf import backends, monitors
 from vf import build as B
 from vf import diff
 from vf.compare import frames_match
-from vf.gen import recipes as R
+from vf.gen import core, recipes as R
 from vf.util import Batch, exc_str, time_limit, CaseTimeout
 
 PID = "C04"
@@ -165,6 +165,75 @@ def one_dialect(b, dname, engine, model_cls, ops, case, frames, full=True):
     return (ntexts >= 2 and (cte or mrg)), f"cte={cte},merge={mrg}"
 
 
+def twin_inputs_shape(case, rng, prof, gl):
+    """t and a twin table t' (same columns, other rows) go through the same 1-2 steps and are concatenated / joined"""
+    import copy
+
+    t = rng.choice(case["tables"])
+    t2 = copy.deepcopy(t)
+    t2["name"] = t["name"] + "_twin"
+    rng.shuffle(t2["rows"])
+    for r in t2["rows"][: max(1, len(t2["rows"]) // 2)]:
+        for j, (c, k) in enumerate(t2["cols"]):
+            if k in ("i", "f") and c != "uid" and r[j] is not None:
+                r[j] = r[j] + 1
+    tables = [t, t2]
+    g = R.Gen(rng, tables, prof, gl)
+    st = g.table_state(t["name"])
+    if rng.random() < 0.8:
+        # the same row filter on both inputs (steps whose re-use key could forget what they read)
+        r = g.step_select_rows(st)
+        if r is not None:
+            try:
+                fr = g.apply(st, r[0])
+                node = dict(r[0])
+                node["src"] = st.node
+                st = R.St(node, fr, st.kinds)
+            except Exception:
+                pass
+    st = g.pipeline_state(rng.randint(0 if st.node["op"] != "table" else 1, 2), allow_binary=False, start=st)
+    if st.node["op"] == "table":
+        return None
+
+    def retarget(node):
+        if node["op"] == "table":
+            return {"op": "table", "name": t2["name"], "cols": list(node["cols"])}
+        n = dict(node)
+        n["src"] = retarget(node["src"])
+        return n
+
+    other = retarget(st.node)
+    idc = None if rng.random() < 0.5 else "src_twin"
+    node = {"op": "concat_rows", "id_column": idc, "a_name": "a", "b_name": "b", "src": st.node, "right": other}
+    try:
+        B.build(node).eval({x["name"]: core.table_frame(x) for x in tables})
+    except Exception:
+        return None
+    return {"tables": tables, "recipe": node, "final_order": None}
+
+
+def two_jointypes_shape(case, st, rng, prof, gl):
+    """L joined with R twice on the same keys with two different join types; the two results are concatenated"""
+    g = R.Gen(rng, case["tables"], prof, gl)
+    r = g.step_join(st, 2)
+    if r is None:
+        return None
+    step, right = r
+    if step["jointype"].lower() == "cross":
+        return None
+    jts = rng.sample(["inner", "left", "right", "full"], 2)
+    a = dict(step, jointype=jts[0], src=st.node, right=right.node)
+    c = dict(step, jointype=jts[1], src=st.node, right=right.node)
+    node = {"op": "concat_rows", "id_column": (None if rng.random() < 0.5 else "jt_src"), "a_name": "a", "b_name": "b", "src": a, "right": c}
+    try:
+        fr = B.build(node).eval({x["name"]: core.table_frame(x) for x in case["tables"]})
+    except Exception:
+        return None
+    if fr.shape[0] > 300:
+        return None
+    return {"tables": case["tables"], "recipe": node, "final_order": None}
+
+
 def run_batch(seed, batch, tier):
     import data_algebra.SQLite
     import data_algebra.PostgreSQL
@@ -203,6 +272,19 @@ def run_batch(seed, batch, tier):
                         case["recipe"] = d
                         case["final_order"] = None
                         b.count("diamond_shapes")
+                r_ = b.rng.random()
+                if r_ < 0.12:
+                    # the same steps applied to two different inputs with the same columns, then combined
+                    tw = twin_inputs_shape(case, b.rng, prof, gl)
+                    if tw is not None:
+                        case = tw
+                        b.count("twin_input_shapes")
+                elif r_ < 0.24:
+                    # the same two operands joined twice with different join types, then combined
+                    tj = two_jointypes_shape(case, st, b.rng, prof, gl)
+                    if tj is not None:
+                        case = tj
+                        b.count("two_jointype_shapes")
                 ops = B.build(case["recipe"])
                 ops_copy = B.build(case["recipe"])
                 frames = diff.used_frames(case)
